@@ -172,7 +172,7 @@ func (c *containerImpl) Lookup(path string) Node {
 }
 
 func (c *containerImpl) Clone() Node {
-	c2 := &containerImpl{}
+	c2 := &containerBuilderImpl{}
 	c2.ensureChildren()
 	for k, v := range c.children {
 		c2.children[k] = v.Clone()
